@@ -148,6 +148,16 @@ CHECKS = {
                 'replacement, sources(vector) with an uninitialised handle) are recorded known findings. State equality itself and '
                 'rejections raised inside libhdf5 are not decided.',
     },
+    'C16': {
+        'technique': 'static analysis: repository-specific lint set over the resolved program - guard-fact (dominance) rules for '
+                     'null/empty/bounds at the anchored idioms, may-return-null summaries, cast and buffer/count rules, error-result '
+                     'consumption rule',
+        'text': 'NOT a proof of the absence of undefined behaviour. Decides that none of the UB idioms known for this code base is '
+                'present at any of their ~200 sites: null char* into std::string, dereference of maybe-null lookups / untested '
+                'optional groups, *max_element/front() on possibly empty ranges, unchecked subscripts on caller-owned vectors, '
+                'unguarded NDSize/NDArray element access, unguarded front-end index getters, size narrowing to element types, '
+                'buffer/count disagreement at I/O primitives, unchecked HDF5 results. Other programs / other idioms are not covered.',
+    },
 }
 
 _NYI = 'check not built yet in this session (planned in DESIGN.md); not claimed until its rule runs and is validated'
